@@ -464,12 +464,64 @@ func tthUtilCases(c *Ctx) []json.RawMessage {
 	return out
 }
 
+// dictKeys: a dictionary made of the package's own string constants and their fragments (split at '_' and '-', prefixes
+// and suffixes at those points): keys an implementation may special-case.
+func dictKeys() []string {
+	consts := []string{ttheader.GDPRToken, ttheader.HeaderIDLServiceName, ttheader.HeaderTransRemoteAddr, ttheader.HeaderTransToCluster,
+		ttheader.HeaderTransToIDC, ttheader.HeaderTransPerfTConnStart, ttheader.HeaderTransPerfTConnEnd, ttheader.HeaderTransPerfTSendStart,
+		ttheader.HeaderTransPerfTRecvStart, ttheader.HeaderTransPerfTRecvEnd, ttheader.HeaderConnectionReadyToReset, ttheader.HeaderProcessAtTime}
+	seen := map[string]bool{}
+	var out []string
+	add := func(k string) {
+		if !seen[k] {
+			seen[k] = true
+			out = append(out, k)
+		}
+	}
+	for _, k := range consts {
+		add(k)
+		add(strings.ToLower(k))
+		add(strings.ToUpper(k))
+		for i := 0; i < len(k); i++ {
+			if k[i] == '_' || k[i] == '-' {
+				add(k[:i])
+				add(k[:i+1])
+				add(k[i+1:])
+				add(k[i:])
+			}
+		}
+		for _, part := range strings.FieldsFunc(k, func(r rune) bool { return r == '_' || r == '-' }) {
+			add(part)
+		}
+		add(k + "x")
+		add("x" + k)
+	}
+	return out
+}
+
 func tthEncCases(c *Ctx) []json.RawMessage {
 	var out []json.RawMessage
 	add := func(t TTHCase) { out = append(out, mustJSON(t)) }
 	rng := rand.New(rand.NewSource(c.Seed*32452843 + 6))
 	add(TTHCase{Mode: "enc"})
 	add(TTHCase{Mode: "enc", Int: []IntKV{}, Str: []StrKV{}})
+	// every dictionary key alone, next to an ordinary key, and next to the ACL token
+	litS := func(t string) StrSpec {
+		sp := StrSpec{Lit: []int{}}
+		for _, b := range []byte(t) {
+			sp.Lit = append(sp.Lit, int(b))
+		}
+		return sp
+	}
+	for i, k := range dictKeys() {
+		if k == ttheader.GDPRToken {
+			continue
+		}
+		add(TTHCase{Mode: "enc", Seq: i, Str: []StrKV{{K: litS(k), V: litS("v")}}})
+		add(TTHCase{Mode: "enc", Seq: i, Str: []StrKV{{K: litS("a"), V: litS("1")}, {K: litS(k), V: StrSpec{Len: 3, Seed: 5}}}, Int: []IntKV{{K: 1, V: litS("i")}}})
+		tok := litS("token")
+		add(TTHCase{Mode: "enc", Seq: i, ACL: &tok, Str: []StrKV{{K: litS(k), V: litS("w")}}})
+	}
 	// every padding residue: one int value of length 0..7, with/without ACL / str entries
 	for n := 0; n < 8; n++ {
 		add(TTHCase{Mode: "enc", Seq: n, Int: []IntKV{{K: 1, V: StrSpec{Len: n, Seed: 3}}}})
